@@ -673,6 +673,18 @@ class Gen:
             v, ok = gen.leaf(dt, self.tok, rng, self.inv())
             return {'k': 'set', 'p': path, 'c': ['fld', i, 0, self.sp()], 'via': 'attr', 'v': {'bdt': [dt, v]}}
         # hold: keep a handle obtained by traversal, write through it later (maybe after the same child was added)
+        if self.kind == 'msg' and rng.random() < 0.4:
+            # ... through a segment that does not exist yet either
+            m = self.model(world)
+            ref = T.messages(self.version).get(self.init['name'])
+            segs, grps = self.msg_children(ref)
+            missing = [c for c in segs if m is not None and not m.reps('seg', c[0])]
+            if missing:
+                c = rng.choice(missing)
+                path, seg_name, node = [['seg', c[0], 0, rng.choice([0, 1])]], c[0], None
+                idx, fref, reps = self.pick_field(seg_name, node, 0.6)
+                step = ['fld', idx, 0, 0]
+                comps = _usable_comps(self.version, fref) if fref is not None else []
         if any(st[2] != 0 for st in path):
             return None        # a chain of plain attribute reads always addresses the first repetition
         comps = _usable_comps(self.version, fref) if fref is not None else []
@@ -698,7 +710,7 @@ class Gen:
             ctext = gen.component_text(rng, self.version, ce[1], self.ec, self.tok, 0.4, 0.0)
             self.pending.append({'k': 'held_set', 'reg': reg, 'hp': hp, 'c': ['cmp', cidx, 0, self.sp()], 'text': ctext})
             return {'k': 'hold', 'p': hp, 'reg': reg}
-        if rng.random() < 0.6:
+        if rng.random() < 0.6 and node is not None:       # (add_x() on a segment that exists only by traversal: out of regime)
             follow.append({'k': 'add', 'p': path, 'c': step, 'via': 'factory'})
             follow.append({'k': 'value', 'p': path + [['fld', idx, reps, 0]], 'text': self.field_value(fref), 'after_add': True})
         follow.append({'k': 'held_value', 'reg': reg, 'text': text, 'bad': 'stale_handle'})
